@@ -2,7 +2,7 @@
 no unvisited slot, the interact pipeline, nothing else reported, instrument-name = delivery-name."""
 import ast
 
-from ..astq import is_name, is_self_attr, returns_of
+from ..astq import Facts, is_name, is_self_attr, returns_of
 from ..cfg import CFG
 from ..core import AnalysisError, norm, walk_local
 from .. import pybinding
@@ -240,8 +240,11 @@ def run(repo, chk):
     chk.ob("R02.4", "interpret.Capture.snapshot:copies", "cap.names = list(self.names)" in ts and "cap.values = list(self.values)" in ts and "Capture(self.element)" in ts, sn.where,
            "a snapshot is a new Capture with copied name and value lists")
     il, tl = repo.func("interpret.Immediate.log"), repo.func("interpret.Total.log")
-    chk.ob("R02.4", "interpret.Immediate.log:overwrites", "cap.set(varname, value)" in norm(il.node) and "cap.accum(" not in norm(il.node), il.where, "Immediate keeps the latest value per capture")
-    chk.ob("R02.4", "interpret.Total.log:accumulates", "cap.accum(varname, value)" in norm(tl.node) and "cap.set(" not in norm(tl.node), tl.where, "Total keeps every value per capture")
+    fil, ftl = Facts(il.node), Facts(tl.node)
+    chk.ob("R02.4", "interpret.Immediate.log:overwrites", fil.has("self.getcap(element).set(varname, value)", exactly=[]) and not any(".accum(" in t for t, _, _ in fil.items), il.where,
+           "Immediate keeps the latest value per capture")
+    chk.ob("R02.4", "interpret.Total.log:accumulates", ftl.has("self.getcap(element).accum(varname, value)", exactly=[]) and not any(".set(" in t for t, _, _ in ftl.items), tl.where,
+           "Total keeps every value per capture")
     cset, cacc = repo.func("interpret.Capture.set"), repo.func("interpret.Capture.accum")
     chk.ob("R02.4", "interpret.Capture.set:replaces", "self.names = [varname]" in norm(cset.node) and "self.values = [value]" in norm(cset.node), cset.where, "Capture.set replaces the stored name and value")
     chk.ob("R02.4", "interpret.Capture.accum:appends", "self.names.append(varname)" in norm(cacc.node) and "self.values.append(value)" in norm(cacc.node), cacc.where, "Capture.accum appends name and value")
